@@ -59,6 +59,17 @@ HANDWRITTEN = [
     ('typedef-function-definition', 'typedef int F(void); F f { return 0; }\n'), ('qualified-function-parameter', 'typedef void F(void); void g(const F f);\n'),
     ('zero-length-array-init', 'int a[0] = { 1 };\n'), ('zero-length-member-init', 'struct s { int a[0]; } x = { 1 };\n'), ('zero-length-auto', 'void g(void *); void f(void) { int b[0]; int c[0] = { }; g(b); g(c); }\n'),
     ('zero-length-auto-init', 'void f(void) { int a[0] = { 1 }; }\n'), ('string-patch-nonconstant', 'int g; struct { char s[4]; } x = { .s = "abc", .s[1] = (char)&g };\n'),
+    ('low-surrogate-narrow', b'char s[] = "\xed\xb0\x80"; char t[] = "a\xed\xbf\xbfz";\n'), ('low-surrogate-u8', b'unsigned char s[] = u8"\xed\xb4\x80";\n'),
+    ('low-surrogate-u16', b'unsigned short s[] = u"\xed\xb0\x80";\n'), ('low-surrogate-u32', b'unsigned s[] = U"\xed\xbf\xbf"; int c = L\'\xed\xb0\x80\';\n'),
+    ('high-surrogate-u16', b'unsigned short s[] = u"\xed\xa0\x80\xed\xb0\x80";\n'),
+    ('macro-redef-more-params', '#define N()\n#define N(a, b) a\n'), ('macro-redef-more-params2', '#define N(a) a\n#define N(a, b, c) a\nint x = N(1);\n'),
+    ('macro-redef-fewer-params', '#define N(a, b) a\n#define N() 1\n'), ('macro-redef-variadic', '#define N()\n#define N(...) __VA_ARGS__\n'),
+    ('union-flexible-init', 'union { int kind; int words[]; } x = { .words = { 1, 2, 3 } };\n'), ('union-flexible-init-anon', 'struct { int n; union { int k; char c[]; }; } y = { 1, { .c = "abc" } };\n'),
+    ('bitfield-width-sentinel', 'struct s { unsigned : ~0ull; int m; } *p; int f(void) { return p->m; }\n'), ('bitfield-width-sentinel2', 'struct s { int a : -1; int : 18446744073709551615; } v;\n'),
+    ('attr-aligned-bare', 'int x __attribute__((aligned));\n'), ('attr-aligned-bare2', '[[gnu::aligned]] int y; void f(int p __attribute__((__aligned__))) { }\n'),
+    ('attr-aligned-struct', 'struct __attribute__((aligned)) s { char c; } v; struct t { char c; } __attribute__((aligned(8))) w;\n'),
+    ('void-parameter-not-alone', 'int f(void, int); int g(void) { return f(1, 2); }\n'), ('enum-float-underlying', 'enum e : float { A }; enum e x; int f(void) { return x + 1; }\n'),
+    ('enum-void-underlying', 'enum e : void { A }; enum e x; void f(void) { x = A; }\n'), ('enum-double-underlying-init', 'enum e : double { A = 1 }; enum e x = 2.5;\n'),
     ('rem-overflow', 'long z = (-0x7fffffffffffffff-1) % -1;\n'), ('rem-overflow-case', 'int f(long v){ switch (v) { case (-0x7fffffffffffffffLL-1) % -1: return 1; } return 0; }\n'),
     ('rem-overflow-int', 'int z = (-0x7fffffff-1) % -1; int w = (-0x7fffffff-1) / -1; enum { E = (-0x7fffffffffffffffLL-1) % -1LL };\n'),
     ('backslash-nul-string', b'char *s = "a\\\x00b";\n'), ('backslash-nul-char', b"int c = '\\\x00';\n"), ('backslash-nul-E', b'#define S(x) #x\nchar *s = S("\\\x00");\n'),
@@ -270,6 +281,8 @@ def run(ctx):
                 cases.append(('truncation', data[:c], args, True))
         for name, src in deep_inputs(thorough):
             cases.append(('deep:' + name, src.encode(), ['-t', 'x86_64-sysv'], False))
+            if name.startswith('many-'):
+                cases.append(('many:' + name, src.encode(), ['-t', 'x86_64-sysv'], True))     # fixed-size work arrays (tree path, tables): under ASan as well
         # tokens whose length sits on a power-of-two boundary (buffer growth), under the sanitizer
         for k in range(3, 14):
             for dlt in (-2, -1, 0, 1, 2):
